@@ -42,6 +42,12 @@ func (p *modelPrinter) expr(e ast.Expr) string {
 	a := cvalOf(p.info.Types[e].Value)
 	switch e := e.(type) {
 	case *ast.Ident:
+		// a name means what is in scope where it is written: an identifier that go/types binds to a package-level function or
+		// variable, a builtin or a type is not the helper of the group that carries the same name (before or after); the model looks
+		// helpers up by name, so such an identifier gets a name no helper can have
+		if nonLocalObject(p.info.Uses[e]) {
+			return fmt.Sprintf("(EIdent %s %s)", a, coqStr("pkg."+e.Name))
+		}
 		return fmt.Sprintf("(EIdent %s %s)", a, coqStr(e.Name))
 	case *ast.BasicLit:
 		kind, patched := "LImag", "None"
@@ -86,6 +92,17 @@ func (p *modelPrinter) expr(e ast.Expr) string {
 	return "(EIdent None \"?\")"
 }
 
+// nonLocalObject: a function, a builtin, a type, or a variable of the package scope
+func nonLocalObject(obj types.Object) bool {
+	switch obj := obj.(type) {
+	case *types.Func, *types.Builtin, *types.TypeName:
+		return true
+	case *types.Var:
+		return !obj.IsField() && obj.Pkg() != nil && obj.Parent() == obj.Pkg().Scope()
+	}
+	return false
+}
+
 // the Where argument of a rule chain m.Match(...).Where(e).Report(...)
 func whereArg(e ast.Expr) ast.Expr {
 	for {
@@ -110,7 +127,7 @@ func modelOf(src string) string {
 	if err != nil {
 		return ""
 	}
-	info := &types.Info{Types: map[ast.Expr]types.TypeAndValue{}}
+	info := &types.Info{Types: map[ast.Expr]types.TypeAndValue{}, Uses: map[*ast.Ident]types.Object{}}
 	conf := types.Config{Importer: modelImporter}
 	if _, err := conf.Check("gorules", modelFset, []*ast.File{f}, info); err != nil {
 		return ""
